@@ -458,8 +458,19 @@ func runC14(h *Harness) {
 	resp.NextUpdate = nu
 	cfg := NodeCfg{Mode: "ocsp_only", AIAStrict: strict, OCSPCache: def}
 	nodes := []*Node{h.NewNode("n1", cfg)}
+	defs := []time.Duration{defD}
 	if twoNodes {
-		nodes = append(nodes, h.NewNode("n2", cfg))
+		// the second instance of the process may be configured with another default duration: what it may serve
+		// without asking is a matter of ITS configuration
+		cfg2 := cfg
+		if tp.Chance(1, 2) {
+			def2 := Pick(tp, "", "40s", "2m", "1h", "6h")
+			cfg2.OCSPCache = def2
+			sc["default_n2"] = def2
+		}
+		d2, _ := time.ParseDuration(cfg2.OCSPCache)
+		defs = append(defs, d2)
+		nodes = append(nodes, h.NewNode("n2", cfg2))
 	}
 	for _, n := range nodes {
 		if err := h.Provision(n); err != nil {
@@ -471,12 +482,13 @@ func runC14(h *Harness) {
 	certA := w.A.Issue(EEOpts{CN: "same-subject", Serial: serial, OCSP: []string{resp.URL}, CDP: []string{}})
 	certB := w.B.Issue(EEOpts{CN: "same-subject", Serial: serial, OCSP: []string{respB.URL}, CDP: []string{}}) // same subject DN and serial, other issuer
 	// lifetime of an authentic answer fetched at tf
-	L := func() time.Duration {
+	lifetime := func(d time.Duration) time.Duration {
 		if nu > 0 {
 			return nu + 15*time.Minute
 		}
-		return defD
-	}()
+		return d
+	}
+	L := lifetime(defD)
 	quantum := L / 3
 	if tp.Chance(1, 3) || quantum == 0 {
 		quantum = Pick(tp, 7*time.Second, 50*time.Second, 6*time.Minute)
@@ -485,8 +497,27 @@ func runC14(h *Harness) {
 	type fetch struct {
 		t      time.Duration
 		status string
+		node   int
+		key    string
 	}
-	last := map[string]*fetch{} // key: issuer name
+	// every authentic answer fetched in this run. Which of them an instance may serve without asking does not depend on
+	// whether the instances of the process share a cache or keep their own: anything fetched (by whomever) at or after
+	// the serving instance's own latest fetch, within the lifetime that the SERVING instance's configuration gives it
+	var fetches []*fetch
+	candidates := func(ni int, key string) (cands []*fetch) {
+		var own *fetch
+		for _, f := range fetches {
+			if f.key == key && f.node == ni {
+				own = f
+			}
+		}
+		for _, f := range fetches {
+			if f.key == key && (own == nil || f.t >= own.t) {
+				cands = append(cands, f)
+			}
+		}
+		return
+	}
 	var hist []string
 	for i := 0; i < reads; i++ {
 		if i == flipAt {
@@ -501,7 +532,9 @@ func runC14(h *Harness) {
 		} else {
 			resp.State = "answer"
 		}
-		n := nodes[tp.Int(len(nodes))]
+		ni := tp.Int(len(nodes))
+		n := nodes[ni]
+		L := lifetime(defs[ni]) // of the instance that serves this read
 		useTwin := twin && i > 0 && tp.Chance(1, 4)
 		cert, iss, rsp := certA, w.A, resp
 		if useTwin {
@@ -517,27 +550,42 @@ func runC14(h *Harness) {
 		key := iss.Name
 		if len(hits) == 0 {
 			h.R.NonTrivial = true
-			f := last[key]
+			cands := candidates(ni, key)
+			var live []*fetch
+			for _, f := range cands {
+				if now <= f.t+L {
+					live = append(live, f)
+				}
+			}
 			switch {
-			case f == nil:
+			case len(cands) == 0:
 				h.Violation("C14.wrong-certificate", map[bool]string{true: "twin-served-from-cache", false: "hitless-without-fetch"}[useTwin], "read %d at t=%v: verdict %s for the certificate issued by %s was produced without a request, but no authentic answer for that issuer+serial was ever fetched (history %v)", i, now, v, iss.Name, hist)
 			case L == 0:
-				h.Violation("C14.zero-duration-cached", "zero-duration", "read %d: verdict without a request although nothing may be cached (default duration 0, no usable nextUpdate)", i)
-			case now > f.t+L:
-				h.Violation("C14.lifetime-exceeded", "lifetime-exceeded", "read %d at t=%v was served from an answer fetched at t=%v: lifetime %v exceeded by %v (reads every %v; history %v)", i, now, f.t, L, now-f.t-L, quantum, hist)
+				h.Violation("C14.zero-duration-cached", "zero-duration", "read %d on %s: verdict without a request although this instance may cache nothing (its default duration is 0, no usable nextUpdate)", i, n.Name)
+			case len(live) == 0:
+				f := cands[len(cands)-1]
+				h.Violation("C14.lifetime-exceeded", "lifetime-exceeded", "read %d on %s at t=%v was served without a request; the most recent authentic answer was fetched at t=%v: the lifetime %v that this instance's configuration gives it is exceeded by %v (reads every %v; history %v)", i, n.Name, now, f.t, L, now-f.t-L, quantum, hist)
 			default:
-				want := "accept"
-				if f.status == rRevoked {
-					want = "revoked"
+				ok := false
+				var have []string
+				for _, f := range live {
+					want := "accept"
+					if f.status == rRevoked {
+						want = "revoked"
+					}
+					have = append(have, f.status)
+					if v == want {
+						ok = true
+					}
 				}
-				if v != want {
-					h.Violation("C14.cache-wrong-status", "cache-mismatch", "read %d served %s from the cache; the cached answer was %s", i, v, f.status)
+				if !ok {
+					h.Violation("C14.cache-wrong-status", "cache-mismatch", "read %d served %s without a request; the answers it may have been served from were %v", i, v, have)
 				}
 			}
 			hist = append(hist, fmt.Sprintf("t=%v cache:%s", now.Round(time.Second), v))
 		} else {
 			if rsp.State == "answer" && !useTwin {
-				last[key] = &fetch{now, rsp.Status}
+				fetches = append(fetches, &fetch{now, rsp.Status, ni, key})
 				want := "accept"
 				if rsp.Status == rRevoked {
 					want = "revoked"
@@ -548,12 +596,20 @@ func runC14(h *Harness) {
 			} else {
 				// failed query: must not be cached — the next hit-less verdict would be flagged by the rules above
 				// because last[key] still points at the previous authentic fetch (or nothing)
-				if strict && (hs.Err == nil || isRevokedErr(hs.Err)) && last[key] == nil {
+				cands := candidates(ni, key)
+				if strict && (hs.Err == nil || isRevokedErr(hs.Err)) && len(cands) == 0 {
 					h.Violation("C14.failed-query-decides", "failed-query", "read %d: the only responder failed (%s) but the strict handshake returned %s", i, rsp.State, v)
 				}
 				// a failed query while the last authentic answer is past its lifetime: that answer must not be what decides
 				// (strict: no answer => deny; lenient: no answer => OCSP does not reject)
-				if f := last[key]; f != nil && now > f.t+L {
+				allExpired := len(cands) > 0
+				for _, f := range cands {
+					if now <= f.t+L {
+						allExpired = false
+					}
+				}
+				if allExpired {
+					f := cands[len(cands)-1]
 					stale := "accept"
 					if f.status == rRevoked {
 						stale = "revoked"
